@@ -56,8 +56,8 @@ EXPECTED_PROBES = {
             'crash_none', 'crash_m', 'crash_cb', 'crash_raise', 'liveness_checked', 'reproduction_checked_at_interruption'],
 }
 BUDGET = {
-    'C06': {'quick': {'n': 128, 'max_s': 150, 'chunk': 1}, 'thorough': {'n': 1600, 'max_s': 3000, 'chunk': 1}},
-    'C05': {'quick': {'n': 6400, 'max_s': 150, 'chunk': 20}, 'thorough': {'n': 120000, 'max_s': 3000, 'chunk': 25}},
+    'C06': {'quick': {'n': 128, 'max_s': 150, 'chunk': 1}, 'thorough': {'n': 4000, 'max_s': 3000, 'chunk': 1}},
+    'C05': {'quick': {'n': 6400, 'max_s': 150, 'chunk': 20}, 'thorough': {'n': 250000, 'max_s': 3000, 'chunk': 25}},
 }
 DOCUMENTED_STOPS = ('nswp', 'm', 'e', 'e_vld', 'cb', 'func', 'conv')
 
